@@ -259,6 +259,39 @@ def lp_case_kind(case):
     return m.group(1) if m else "?"
 
 
+def appsend_trace(R, test_exe, runner, n):
+    """Sender side of the application stream face: concurrent Send calls over a gated pipe, a real StreamFace receiving."""
+    trace = os.path.join(R.work, "appsend.trace")
+    env = vlib.goenv()
+    env.update(VERIF_SEED=str(R.seed), VERIF_N=str(n), VERIF_OUT=trace)
+    rc, out = vlib.sh([test_exe, "-test.run", "TestAppSendTrace$", "-test.count=1", "-test.timeout=600s"], env=env, timeout=700)
+    if rc != 0:
+        R.oracle_failure("appsend-harness-crash", "the Go harness for concurrent Send aborted", dict(output=out[-1500:]))
+        return None
+    rc, out = run_runner(runner, ["appsend", trace])
+    res = dict(cases=0, nontrivial=set(), kinds={}, samples=[])
+    if "DONE" not in out:
+        R.proof_problems.append("appsend runner did not finish: " + out[-300:])
+    txt = open(trace, errors="replace").read()
+    for l in out.split("\n"):
+        f = l.split(" ")
+        if f[0] == "CASEOK":
+            res["cases"] += 1
+            res["kinds"][f[2]] = res["kinds"].get(f[2], 0) + 1
+            kv = dict(x.split("=", 1) for x in f[3:] if "=" in x)
+            if kv.get("nontrivial") == "1":
+                res["nontrivial"].add(kv.get("hash"))
+            if not res["samples"]:
+                res["samples"].append(" ".join(f[1:6]))
+        elif f[0] == "ORACLE":
+            res["cases"] += 1
+            i = txt.find("SCASE " + f[1] + " ")
+            j = txt.find("END", i)
+            R.oracle_failure(f[2] + ":app-send-concurrent", " ".join(f[3:]),
+                             dict(case_id=f[1], case=txt[i:j + 3][:200000], harness="facelp.test -test.run TestAppSendTrace (VERIF_SEED=%d)" % R.seed))
+    return res
+
+
 def load_cases(trace):
     cases, cur, cid = {}, [], None
     for line in open(trace, errors="replace"):
